@@ -594,3 +594,7 @@ _add(
     "C12",
     m("only-invalid-value-error-is-a-miss", D, "        except Exception:\n            # Unpickling can raise nearly anything", "        except InvalidValueError:\n            # Unpickling can raise nearly anything", "C12.7"),
 )
+_add(
+    "C06",
+    m("context-free-filter-on-callnode", D, "                    ~exists().where(and_(Tag.entity_id == Job.id, Tag.key == CONTEXT_KEY))", "                    ~exists().where(and_(Tag.entity_id == CallNode.call_hash, Tag.key == CONTEXT_KEY))", "C06.8"),
+)
